@@ -783,10 +783,9 @@ def _init_ctrl_history_kernel(
   values_offset = buf_offset + 2 + nsample
 
   for i in range(nsample):
+    # times=None keeps the existing timestamps, as mj_initCtrlHistory / mj_initSensorHistory do
     if has_times != 0:
       history_out[worldid, times_offset + i] = times[i]
-    else:
-      history_out[worldid, times_offset + i] = -MJ_MAXVAL
     history_out[worldid, values_offset + i] = values[worldid, i]
 
   # restore user slot
@@ -870,10 +869,9 @@ def _init_sensor_history_kernel(
   values_offset = buf_offset + 2 + nsample
 
   for i in range(nsample):
+    # times=None keeps the existing timestamps, as mj_initCtrlHistory / mj_initSensorHistory do
     if has_times != 0:
       history_out[worldid, times_offset + i] = times[i]
-    else:
-      history_out[worldid, times_offset + i] = -MJ_MAXVAL
     for j in range(dim):
       history_out[worldid, values_offset + i * dim + j] = values[worldid, i * dim + j]
 
